@@ -162,10 +162,7 @@ func newInterpreter(prog *ssa.Program, h *Harness, opts *Options, q *workQueue, 
 	}
 	i.logging = true
 	i.checkpoint = 0
-	i.witnessLeft = 0
-	if worker == 0 {
-		i.witnessLeft = opts.WitnessPaths
-	}
+	i.witnessLeft = opts.WitnessPaths
 	return i, nil
 }
 
